@@ -461,9 +461,13 @@ PROPS["C06"] = {
          "quick": ["c06::c06_object_paths", "c06::c06_group_paths", "c06::c06_clone_and_self_return",
                    "c06::c06_borrowing_objects_do_not_drop", "c06::c06_boxed_parent_borrowed_child", "c06::c06_cbox_paths",
                    "c06::c06_cslicebox", "c06::c06_cslicebox_plain_data", "c06::c06_large_payload",
-                   "c06::c06_lifetime_bound_mut_return_first_call", "c06::c06_zero_sized_payload_with_destructor", "c06::c06_negative_twin"],
+                   "c06::c06_lifetime_bound_mut_return_first_call", "c06::c06_kf_borrowed_child_context_clone_never_released", "c06::c06_zero_sized_payload_with_destructor", "c06::c06_negative_twin"],
          "cbmc_args": LEAK, "timeout": 1800},
     ],
+    "known": {
+        "c06::c06_kf_borrowed_child_context_clone_never_released": {"key": "C06/borrowed-wrapped-return/context-clone",
+                                                                     "match": ["borrowed child: the context clone held by the temporary wrapper is released"]},
+    },
     "negative": ["c06::c06_negative_twin"],
     "bounds": "symbolic lifecycle-path selector over {drop, move, consuming call, by-value call returning a wrapped object, owned "
               "child object / group in both drop orders, cast hit and miss (enabled set symbolic), cast back, into!, as_ref!/"
